@@ -15,7 +15,7 @@ pub enum DispatchPhase {
     /// Inside the inner loop, after one tentative `advance` and its deadlock check.
     AfterAdvance,
     /// Inside the inner loop, right after the moved train was rewound to its fixed position
-    /// and the other trains' free paths were recomputed.
+    /// (before the other trains' free paths are recomputed).
     AfterRewind,
     /// Once, just before the timed paths are computed and returned.
     Final,
